@@ -526,6 +526,7 @@ type EvOp struct {
 	Kind string `json:"k"` // sub unsub fire
 	L    int    `json:"l,omitempty"`
 	V    int    `json:"v,omitempty"`
+	A    int    `json:"a,omitempty"` // actor: 0 changes the listener set, 1 fires (concurrently)
 }
 
 type EventPlan struct {
@@ -564,6 +565,14 @@ func genEventPlan(r *rand.Rand) *EventPlan {
 			p.Ops = append(p.Ops, EvOp{Kind: "fire", V: v})
 		}
 	}
+	if r.IntN(2) == 0 {
+		// the fires run in a second task, concurrently with the subscribe/unsubscribe history
+		for i := range p.Ops {
+			if p.Ops[i].Kind == "fire" {
+				p.Ops[i].A = 1
+			}
+		}
+	}
 	return p
 }
 
@@ -572,11 +581,21 @@ func runEventPlan(t *testing.T, planAny any, ctl Ctl) *Result {
 	res := newResult()
 	type deliv struct{ l, v int }
 	var delivered []deliv
-	liveAtFire := map[int]map[int]bool{} // value -> listeners live when it was fired
+	// per listener: event-sequence numbers of subscribe return / unsubscribe call / unsubscribe return
+	type lstate struct{ subRet, unsubCall, unsubRet int64 }
+	ls := map[int]*lstate{}
+	type fstate struct{ call, ret int64 }
+	fires := map[int]*fstate{}
+	var seq int64
+	next := func() int64 { resMu.Lock(); defer resMu.Unlock(); seq++; return seq }
 	var actorPanic string
 	var sig []string
+	concurrent := false
 	for _, op := range p.Ops {
 		sig = append(sig, fmt.Sprintf("%s%d", op.Kind, op.L+op.V))
+		if op.A != 0 {
+			concurrent = true
+		}
 	}
 	bubble(t, res, func() {
 		s := zzsim.New(ctl.Seed, racePol(p.Pol))
@@ -587,38 +606,56 @@ func runEventPlan(t *testing.T, planAny any, ctl Ctl) *Result {
 		defer s.Detach()
 		ev := event.New[int]()
 		unsubs := map[int]event.Unsubscribe{}
-		live := map[int]bool{}
-		s.Spawn("actor:events", func() {
-			defer func() {
-				if r := recover(); r != nil {
-					actorPanic = fmt.Sprint(r)
-				}
-			}()
-			for _, op := range p.Ops {
-				switch op.Kind {
-				case "sub":
-					l := op.L
-					unsubs[l] = ev.Subscribe(func(v int) {
-						zzsim.Yield("harness:event-delivery")
+		run := func(actor int) func() {
+			return func() {
+				defer func() {
+					if r := recover(); r != nil {
 						resMu.Lock()
-						delivered = append(delivered, deliv{l, v})
+						actorPanic = fmt.Sprint(r)
 						resMu.Unlock()
-					})
-					live[l] = true
-				case "unsub":
-					unsubs[op.L]()
-					delete(live, op.L)
-				case "fire":
-					m := map[int]bool{}
-					for l := range live {
-						m[l] = true
 					}
-					liveAtFire[op.V] = m
-					ev.Fire(op.V)
+				}()
+				for _, op := range p.Ops {
+					if op.A != actor {
+						continue
+					}
+					switch op.Kind {
+					case "sub":
+						l := op.L
+						un := ev.Subscribe(func(v int) {
+							zzsim.Yield("harness:event-delivery")
+							resMu.Lock()
+							delivered = append(delivered, deliv{l, v})
+							resMu.Unlock()
+						})
+						resMu.Lock()
+						unsubs[l] = un
+						ls[l] = &lstate{}
+						resMu.Unlock()
+						ls[l].subRet = next()
+					case "unsub":
+						resMu.Lock()
+						un, st := unsubs[op.L], ls[op.L]
+						resMu.Unlock()
+						st.unsubCall = next()
+						un()
+						st.unsubRet = next()
+					case "fire":
+						f := &fstate{call: next()}
+						resMu.Lock()
+						fires[op.V] = f
+						resMu.Unlock()
+						ev.Fire(op.V)
+						f.ret = next()
+					}
+					s.Yield("harness:event-op")
 				}
-				s.Yield("harness:event-op")
 			}
-		})
+		}
+		s.Spawn("actor:events", run(0))
+		if concurrent {
+			s.Spawn("actor:firer", run(1))
+		}
 		end := s.Run(func() bool { return s.AllDone() })
 		finishSched(res, s, end)
 		for _, pm := range s.Panics {
@@ -630,6 +667,9 @@ func runEventPlan(t *testing.T, planAny any, ctl Ctl) *Result {
 		return res
 	}
 	history := strings.Join(sig, " ")
+	if concurrent {
+		history += " (fires in a concurrent task)"
+	}
 	if actorPanic != "" {
 		res.violate("C19.a", "unsubscribe-panicked", "%s [%s]", actorPanic, history)
 		return res
@@ -639,24 +679,35 @@ func runEventPlan(t *testing.T, planAny any, ctl Ctl) *Result {
 		count[d]++
 	}
 	var vals []int
-	for v := range liveAtFire {
+	for v := range fires {
 		vals = append(vals, v)
 	}
 	sort.Ints(vals)
 	for _, v := range vals {
 		res.Evals++
+		f := fires[v]
 		for l := 0; l < 6; l++ {
 			n := count[deliv{l, v}]
-			if liveAtFire[v][l] {
-				if n != 1 {
-					res.violate("C19.b", fmt.Sprintf("live-listener-got-%d-deliveries", n), "value %d was fired while listener %d was subscribed; it was delivered %d times [%s]", v, l, n, history)
-				}
-			} else if n > 0 {
+			st := ls[l]
+			// live for the whole Fire call: must get it exactly once. Not subscribed when Fire
+			// was invoked, or unsubscribed before it was invoked: must not get it. Otherwise
+			// (subscribe/unsubscribe overlapping the Fire call): may get it, at most once.
+			mustGet := st != nil && st.subRet != 0 && st.subRet < f.call && (st.unsubCall == 0 || st.unsubCall > f.ret)
+			mustNot := st == nil || st.subRet == 0 || (f.ret != 0 && st.subRet > f.ret) || (st.unsubRet != 0 && st.unsubRet < f.call)
+			switch {
+			case mustGet && n != 1:
+				res.violate("C19.b", fmt.Sprintf("live-listener-got-%d-deliveries", n), "value %d was fired while listener %d was subscribed; it was delivered %d times [%s]", v, l, n, history)
+			case mustNot && n > 0:
 				res.violate("C19.b", "delivered-after-unsubscribe", "value %d reached listener %d, which was not subscribed when it was fired [%s]", v, l, history)
+			case n > 1:
+				res.violate("C19.b", "delivered-twice", "value %d reached listener %d %d times [%s]", v, l, n, history)
 			}
 		}
 	}
 	res.Probes["event_ops"] += len(p.Ops)
+	if concurrent {
+		res.Probes["event_fire_concurrent_with_unsubscribe"]++
+	}
 	res.Nontrivial = true
 	return res
 }
@@ -728,7 +779,7 @@ type CompPlan struct {
 }
 
 var compValidFixed = []string{`{"cache":{"lock_shards":1}}`, `{"cache":{"lock_shards":7}}`, `{"cache":{"type":"file"}}`, `{"cache":{"type":"memory"}}`, `{"cache":{"memory":{"memory_budget_percent":0}}}`,
-	`{"cache":{"file":{"dir":"other-cache"}}}`, `{"proxy":{"listen":":7777"}}`, `{"cache":{"max_cache_size":"1B"}}`, `{"cache":{"cleanup_interval":"1ns"}}`}
+	`{"cache":{"file":{"dir":"other-cache"}}}`, `{"proxy":{"listen":":7777"}}`, `{"cache":{"max_cache_size":"1B"}}`, `{"cache":{"cleanup_interval":"50ms"}}`}
 
 var compValid = []string{
 	`{"cache":{"max_cache_size":"%dB"}}`, `{"cache":{"cleanup_interval":"%dms"}}`, `{"cache":{"memory":{"memory_budget_percent":%d}}}`, `{"logging":{"level":"%s"}}`,
@@ -906,6 +957,7 @@ func runCompPlan(t *testing.T, planAny any, ctl Ctl) *Result {
 		settle := func() { s.WaitUntil("harness:settle", time.Now().Add(time.Millisecond)) }
 		cacheDestroyed, loggerDestroyed := false, false
 		var callsAtDestroy int
+		var restartCleanup func()
 		s.Spawn("actor:config", func() {
 			settle()
 			lastMax, lastInt, lastLvl, lastPct := cfg.Cache.MaxCacheSize.Read().Bytes(), cfg.Cache.CleanupInterval.Read().Cast(), cfg.Logging.Level.Read(), cfg.Cache.Memory.MemoryBudgetPercent.Read()
@@ -1095,6 +1147,12 @@ func runCompPlan(t *testing.T, planAny any, ctl Ctl) *Result {
 						}()
 						ctx2, cancel2 := context.WithCancel(context.Background())
 						var c2 cache.Cache[CMeta]
+						restartCleanup = func() {
+							cancel2()
+							if c2 != nil {
+								c2.Destroy()
+							}
+						}
 						if ncfg.Cache.Type.Read() == config.CacheTypeFile {
 							c2 = cache.NewFileCache[CMeta](ncfg, filepath.Join(dir, "cache2"), ncfg.Cache.MaxCacheSize.Read().Bytes(), ncfg.Cache.CleanupInterval.Read().Cast(), ncfg.Cache.LockShards.Read(), ctx2)
 						} else {
@@ -1108,8 +1166,8 @@ func runCompPlan(t *testing.T, planAny any, ctl Ctl) *Result {
 							ent.Data.Close()
 						}
 						settle()
-						cancel2()
-						c2.Destroy()
+						restartCleanup()
+						restartCleanup = nil
 						settle()
 						res.Probes["restart_under_accepted_config"]++
 					}()
@@ -1127,6 +1185,9 @@ func runCompPlan(t *testing.T, planAny any, ctl Ctl) *Result {
 		cancel()
 		if !cacheDestroyed {
 			c.Destroy()
+		}
+		if restartCleanup != nil {
+			restartCleanup() // the run ended before the actor got to it
 		}
 		s.Drain(func(string) bool { return true })
 		for i := 0; i < 20; i++ {
